@@ -172,17 +172,37 @@ Proof.
       * destruct (U x Hx) as [u [Hu Eu]]. exists u. split; [right; exact Hu|exact Eu].
 Qed.
 
+Lemma keep_running_fold (g : world -> unit_ -> world) :
+  (forall W u x, In x (w_running W) -> x <> u_id u -> In x (w_running (g W u))) ->
+  forall us W x, In x (w_running W) -> ~ In x (map u_id us) -> In x (w_running (fold_left g us W)).
+Proof.
+  intros H us. induction us as [|a r IH]; intros W x Hx NI; cbn [fold_left]; [exact Hx|].
+  apply IH; [apply H; [exact Hx|intros E; apply NI; left; symmetry; exact E]|intros K; apply NI; right; exact K].
+Qed.
+Lemma leg_unit_stop_keeps cfg W u x : In x (w_running W) -> x <> u_id u -> In x (w_running (leg_unit_stop cfg W u)).
+Proof.
+  intros Hx NE. unfold leg_unit_stop. destruct (memn (u_id u) (w_pending W)).
+  - destruct (d91_pending_subscribes cfg); exact Hx.
+  - destruct (memn (u_id u) (w_running W)); [|exact Hx]. wsimpl. apply In_deln. split; assumption.
+Qed.
+Lemma stop_if_running_keeps cfg W u x : In x (w_running W) -> x <> u_id u -> In x (w_running (stop_if_running cfg W u)).
+Proof.
+  intros Hx NE. unfold stop_if_running. destruct (memn (u_id u) (w_running W)); [|exact Hx].
+  unfold dec_unit_stop. wsimpl. apply In_deln. split; assumption.
+Qed.
+
 (* ---- a function is stopped ------------------------------------------------------------------------ *)
 (* W1 is the world after the unit fold, W' the world after the function left the active set *)
 Lemma stop_once W W1 W' f rs : Inv W -> Once W -> In f (w_funcs W) -> In (f_gen f) (w_active W) ->
   w_log W1 = w_log W ++ rs -> sub_log rs (f_units f) -> (f_new f = false -> rs = flat_map shutdown_run (f_units f)) ->
   stop_frame W W1 (map u_id (f_units f)) ->
+  (forall x, In x (w_running W) -> ~ In x (map u_id (f_units f)) -> In x (w_running W1)) ->
   w_log W' = w_log W1 -> w_funcs W' = w_funcs W1 -> w_next W' = w_next W1 -> w_pending W' = w_pending W1 ->
   w_running W' = w_running W1 -> (forall g, In g (w_active W') <-> In g (w_active W1) /\ g <> f_gen f) ->
   (forall g, In g (w_delayed W') -> In g (w_delayed W1)) ->
   Once W'.
 Proof.
-  intros [I [S L]] [OL OU ON] Hf HA EL [SC SU] EX [[T1 T2] [A1 [D1 [R1 [P1 _]]]]] EL' EF' EN' EP' ER' EA' ED'.
+  intros [I [S L]] [OL OU ON] Hf HA EL [SC SU] EX [[T1 T2] [A1 [D1 [R1 [P1 _]]]]] KR EL' EF' EN' EP' ER' EA' ED'.
   constructor.
   - rewrite EL', EN', EL, T2. intros r Hr. apply in_app_or in Hr. destruct Hr as [Hr|Hr]; [apply OL; exact Hr|].
     destruct (SU r Hr) as [u [Hu E]]. rewrite E. apply (io_unit W I f u (conj Hf Hu)).
@@ -219,13 +239,490 @@ Proof.
       * rewrite EL', EL, count_app, Z. lia.
       * intros K. rewrite <- D1. apply ED'. exact K.
       * rewrite EP'. intros K. apply (P1 _ K).
-      * rewrite ER'. split; [intros K; apply (R1 _ K)|].
-        intros K. destruct (so_run W S _ K) as [f2 [u2 [O2 [E2 _]]]]. 
-        (* the unit is still running after the fold: it is not one of the stopped function's *)
-        destruct (in_dec N.eq_dec (u_id u') (w_running W1)) as [Y|Y]; [exact Y|].
-        exfalso. clear -Y K NI R1 T1 EL. 
-        (* stop folds only remove ids of the stopped units from running; we only know one direction, so derive from frames *)
-        exact (Y (proj1 (conj K I) |> fun _ => match Y K with end)).
+      * rewrite ER'. split; [intros K; apply (R1 _ K)|intros K; apply KR; assumption].
       * rewrite EA', A1. split; [tauto|intros K; split; [exact K|exact NG]].
   - intros f' Hf'. rewrite EF', T1 in Hf'. apply ON. exact Hf'.
 Qed.
+
+Lemma leg_func_stop_once cfg W f : all_off cfg -> Inv W -> Once W -> In f (w_funcs W) -> f_new f = false ->
+  Once (leg_func_stop cfg W f).
+Proof.
+  intros AO HI HO Hf NF. unfold leg_func_stop. destruct (memn (f_gen f) (w_active W)) eqn:MA; [|exact HO].
+  apply memn_In in MA.
+  destruct (fold_stop_units (leg_unit_stop cfg) f) with (us := f_units f) (W := W) as [H1 FR].
+  - intros W0 u0 HI0 O0. apply (leg_unit_stop_inv cfg W0 f u0 AO HI0 O0 NF).
+  - exact HI.
+  - intros u Hu. split; assumption.
+  - set (W1 := fold_left (leg_unit_stop cfg) (f_units f) W) in *.
+    destruct (svc_remove_fields W1 f) as [[F2 [_ [P2 [_ [R2 _]]]]] [SA [SD [LG _]]]].
+    pose proof (svc_remove_next W1 f) as N2. cbv zeta. set (W2 := svc_remove W1 f) in *.
+    apply (stop_once W W1 _ f (flat_map shutdown_run (f_units f)) HI HO Hf MA (log_fold_leg_stop cfg (f_units f) W)
+             (sub_log_full _) (fun _ => eq_refl) FR); wsimpl; try assumption.
+    + intros x Hx NI. apply keep_running_fold; [apply leg_unit_stop_keeps|exact Hx|exact NI].
+    + intros g. rewrite SA. apply In_deln.
+    + intros g Hg. rewrite SD in Hg. apply In_deln in Hg. tauto.
+Qed.
+
+(* stop of the running decorators of a manager, then the manager leaves the active set (dm_stop, refused start) *)
+Lemma dm_stopped_once cfg W W' f : all_off cfg -> Inv W -> Once W -> In f (w_funcs W) -> f_new f = true -> In (f_gen f) (w_active W) ->
+  let W1 := fold_left (stop_if_running cfg) (f_units f) W in
+  w_log W' = w_log W1 -> w_funcs W' = w_funcs W1 -> w_next W' = w_next W1 -> w_pending W' = w_pending W1 ->
+  w_running W' = w_running W1 -> (forall g, In g (w_active W') <-> In g (w_active W1) /\ g <> f_gen f) ->
+  (forall g, In g (w_delayed W') -> In g (w_delayed W1)) -> Once W'.
+Proof.
+  intros AO HI HO Hf NF MA W1 E1 E2 E3 E4 E5 E6 E7.
+  destruct (fold_stop_units (stop_if_running cfg) f) with (us := f_units f) (W := W) as [H1 FR].
+  - intros W0 u0 HI0 O0. apply (stop_if_running_inv cfg W0 f u0 AO HI0 O0 NF).
+  - exact HI.
+  - intros u Hu. split; assumption.
+  - destruct (log_fold_stop_running cfg (f_units f) W) as [rs [EL SL]].
+    apply (stop_once W W1 W' f rs HI HO Hf MA EL SL); try assumption.
+    + intros K. congruence.
+    + intros x Hx NI. apply keep_running_fold; [apply stop_if_running_keeps|exact Hx|exact NI].
+Qed.
+
+Lemma dm_stop_once cfg W f : all_off cfg -> Inv W -> Once W -> In f (w_funcs W) -> f_new f = true ->
+  In (f_gen f) (w_active W) -> Once (dm_stop cfg W f).
+Proof.
+  intros AO HI HO Hf NF MA. unfold dm_stop. cbv zeta.
+  set (W1 := fold_left (stop_if_running cfg) (f_units f) W).
+  set (W2 := if memn (f_gen f) (l_svc (w_led W1)) then svc_remove W1 f else W1).
+  assert (X : w_log W2 = w_log W1 /\ w_funcs W2 = w_funcs W1 /\ w_next W2 = w_next W1 /\ w_pending W2 = w_pending W1 /\
+              w_running W2 = w_running W1 /\ w_active W2 = w_active W1 /\ w_delayed W2 = w_delayed W1).
+  { unfold W2. destruct (memn (f_gen f) (l_svc (w_led W1))); [|repeat split; reflexivity].
+    destruct (svc_remove_fields W1 f) as [[F2 [_ [P2 [_ [R2 _]]]]] [SA [SD [LG _]]]]. pose proof (svc_remove_next W1 f).
+    repeat split; assumption. }
+  destruct X as [X1 [X2 [X3 [X4 [X5 [X6 X7]]]]]].
+  apply (dm_stopped_once cfg W _ f AO HI HO Hf NF MA); wsimpl; try assumption.
+  - intros g. rewrite X6. apply In_deln.
+  - intros g Hg. rewrite X7 in Hg. exact Hg.
+Qed.
+
+Lemma dm_discard_once W f : Inv W -> Once W -> In f (w_funcs W) -> f_new f = true -> Once (dm_discard W f).
+Proof.
+  intros [I [S L]] [OL OU ON] Hf NF. unfold dm_discard. constructor; wsimpl; try assumption.
+  intros f' u' O'. pose proof (OU f' u' O') as X. destruct O' as [Hf' Hu'].
+  destruct (N.eq_dec (f_gen f') (f_gen f)) as [EG|NG].
+  - pose proof (io_guniq W I f' f Hf' Hf EG). subst f'. unfold once_u in *. wsimpl. destruct X as [A [B [C [D E]]]].
+    assert (NA : ~ In (f_gen f) (deln (f_gen f) (w_active W))) by apply not_in_deln_self. repeat split.
+    + destruct A as [A|[A1 [A2 [A3 A4]]]]; [left; exact A|right]. split; [exact A1|split; [exact A2|split]].
+      * intros K. congruence.
+      * intros _. right. exact NA.
+    + exact B.
+    + intros K. contradiction.
+    + exact D.
+    + intros K. congruence.
+  - apply (once_u_transfer W); wsimpl; try exact X; try reflexivity; auto.
+    + intros K. apply In_deln in K. tauto.
+    + split; [intros K; apply In_deln in K; tauto|intros K; apply In_deln; split; assumption].
+Qed.
+
+(* ---- unit-level starts ------------------------------------------------------------------------------ *)
+Lemma dec_unit_start_once W f u : Inv W -> Once W -> owns W f u -> f_new f = true -> In (f_gen f) (w_active W) ->
+  ~ In (u_id u) (w_running W) -> Once (dec_unit_start W u).
+Proof.
+  intros [I [S L]] [OL OU ON] O NF A NR. unfold dec_unit_start. constructor; wsimpl; try assumption.
+  - intros r Hr. apply in_app_or in Hr. destruct Hr as [Hr|Hr]; [apply OL; exact Hr|].
+    rewrite dec_start_log in Hr. rewrite (startup_run_unit u r Hr). apply (io_unit W I f u O).
+  - intros f' u' O'. pose proof (OU f' u' O') as X. destruct (N.eq_dec (u_id u') (u_id u)) as [EU|NU].
+    + destruct (io_uniq W I f' u' f u O' O EU) as [-> ->]. unfold once_u in *. wsimpl. rewrite dec_start_log.
+      rewrite !count_app, count_su_startup, count_sd_startup, N.eqb_refl. cbn [andb]. rewrite !Nat.add_0_r.
+      destruct X as [[A0|[_ [_ [_ A4]]]] [B [Cc [D E']]]].
+      2:{ destruct (A4 NF) as [K|K]; contradiction. }
+      rewrite A0. cbn [Nat.add]. repeat split; try assumption.
+      * destruct (u_startup u); [right|left; reflexivity]. split; [reflexivity|split; [|split]].
+        -- intros K. destruct (so_pend W S _ K) as [f2 [u2 [O2 [E2 [NF2 _]]]]].
+           destruct (io_uniq W I f2 u2 f u O2 O E2) as [-> _]. congruence.
+        -- intros K. congruence.
+        -- intros _. left. apply In_addn. right; reflexivity.
+      * intros _ Y. rewrite Y. reflexivity.
+    + apply (once_u_transfer W); wsimpl; try exact X.
+      * rewrite dec_start_log, count_app, count_su_startup. apply N.eqb_neq in NU. rewrite N.eqb_sym, NU. cbn. lia.
+      * rewrite dec_start_log, count_app, count_sd_startup. lia.
+      * auto.
+      * auto.
+      * split; [intros K; apply In_addn in K; destruct K as [K|K]; [exact K|contradiction]|intros K; apply In_addn; left; exact K].
+      * reflexivity.
+Qed.
+
+Lemma leg_unit_start_once W f u : Inv W -> Once W -> owns W f u -> f_new f = false ->
+  count_run RStartup (u_id u) (w_log W) = 0%nat -> Once (leg_unit_start W u).
+Proof.
+  intros [I [S L]] [OL OU ON] O NF CS. unfold leg_unit_start. constructor; wsimpl; try assumption.
+  intros f' u' O'. pose proof (OU f' u' O') as X. destruct (N.eq_dec (u_id u') (u_id u)) as [EU|NU].
+  - destruct (io_uniq W I f' u' f u O' O EU) as [-> ->]. unfold once_u in *. wsimpl. destruct X as [A [B [Cc [D E']]]].
+    repeat split; try assumption. left. exact CS.
+  - apply (once_u_transfer W); wsimpl; try exact X; try reflexivity; auto.
+    intros K. apply In_addn in K. destruct K as [K|K]; [exact K|contradiction].
+Qed.
+
+(* folds of starts: Inv and Once together *)
+Definition Inv2 (W : world) : Prop := Inv W /\ Once W.
+
+Lemma fold_dec_start2 f : f_new f = true -> forall us W, Inv2 W -> (forall u, In u us -> owns W f u) ->
+  In (f_gen f) (w_active W) -> ~ In (f_gen f) (w_delayed W) -> NoDup (map u_id us) ->
+  (forall u, In u us -> ~ In (u_id u) (w_running W)) ->
+  Once (fold_left dec_unit_start us W).
+Proof.
+  intros NF us. induction us as [|a r IH]; intros W [HI HO] HU A ND NDp NR; cbn [fold_left]; [exact HO|].
+  cbn [map] in NDp. inversion NDp as [|x l NI ND']; subst.
+  destruct (dec_unit_start_inv W f a HI (HU a (or_introl eq_refl)) NF A ND) as [H1 [[[T1 T2] [A1 [D1 _]]] _]].
+  apply (IH (dec_unit_start W a)).
+  - split; [exact H1|]. apply (dec_unit_start_once W f a HI HO (HU a (or_introl eq_refl)) NF A (NR a (or_introl eq_refl))).
+  - intros u Hu. apply (owns_same W); [exact T1|]. apply HU. right; exact Hu.
+  - rewrite A1. exact A.
+  - rewrite D1. exact ND.
+  - exact ND'.
+  - intros u Hu K. unfold dec_unit_start in K. wsimpl. apply In_addn in K. destruct K as [K|K].
+    + exact (NR u (or_intror Hu) K).
+    + apply NI. rewrite <- K. apply in_map. exact Hu.
+Qed.
+
+Lemma start_idle_once W f u : Inv W -> Once W -> owns W f u -> f_new f = true -> In (f_gen f) (w_active W) ->
+  Once (start_if_idle W u).
+Proof.
+  intros HI HO O NF A. unfold start_if_idle. destruct (memn (u_id u) (w_running W)) eqn:M; [exact HO|].
+  apply memn_false in M. apply (dec_unit_start_once W f u HI HO O NF A M).
+Qed.
+Lemma fold_start_idle2 f : f_new f = true -> forall us W, Inv2 W -> (forall u, In u us -> owns W f u) ->
+  In (f_gen f) (w_active W) -> ~ In (f_gen f) (w_delayed W) -> Once (fold_left start_if_idle us W).
+Proof.
+  intros NF us. induction us as [|a r IH]; intros W [HI HO] HU A ND; cbn [fold_left]; [exact HO|].
+  destruct (start_idle_inv W f a HI (HU a (or_introl eq_refl)) NF A ND) as [H1 [[[T1 T2] [A1 [D1 _]]] _]].
+  apply (IH (start_if_idle W a)).
+  - split; [exact H1|apply (start_idle_once W f a HI HO (HU a (or_introl eq_refl)) NF A)].
+  - intros u Hu. apply (owns_same W); [exact T1|]. apply HU. right; exact Hu.
+  - rewrite A1. exact A.
+  - rewrite D1. exact ND.
+Qed.
+Lemma fold_leg_start2 f : f_new f = false -> forall us W, Inv2 W -> (forall u, In u us -> owns W f u) ->
+  In (f_gen f) (w_active W) -> ~ In (f_gen f) (w_delayed W) -> (forall u, In u us -> ~ In (u_id u) (w_running W)) ->
+  (forall u, In u us -> count_run RStartup (u_id u) (w_log W) = 0%nat) ->
+  Once (fold_left leg_unit_start us W).
+Proof.
+  intros NF us. induction us as [|a r IH]; intros W [HI HO] HU A ND NR CS; cbn [fold_left]; [exact HO|].
+  destruct (leg_unit_start_inv W f a HI (HU a (or_introl eq_refl)) NF A ND (NR a (or_introl eq_refl))) as [H1 [[[T1 T2] [A1 [D1 _]]] R1]].
+  apply (IH (leg_unit_start W a)).
+  - split; [exact H1|apply (leg_unit_start_once W f a HI HO (HU a (or_introl eq_refl)) NF (CS a (or_introl eq_refl)))].
+  - intros u Hu. apply (owns_same W); [exact T1|]. apply HU. right; exact Hu.
+  - rewrite A1. exact A.
+  - rewrite D1. exact ND.
+  - intros u Hu. rewrite R1. apply NR. right; exact Hu.
+  - intros u Hu. apply CS. right; exact Hu.
+Qed.
+
+Lemma firstn_nodup {A} (f : A -> N) n (l : list A) : NoDup (map f l) -> NoDup (map f (firstn n l)).
+Proof.
+  revert l. induction n as [|n IH]; intros [|a l] H; cbn; try constructor.
+  - cbn in H. inversion H as [|x y NI ND]; subst. intros K. apply NI. apply in_map_iff in K. destruct K as [z [E Hz]].
+    apply in_map_iff. exists z. split; [exact E|apply (firstn_In _ _ _ Hz)].
+  - cbn in H. inversion H; subst. apply IH. assumption.
+Qed.
+
+Lemma Once_status W W' : Once W -> w_log W' = w_log W -> w_funcs W' = w_funcs W -> w_next W <= w_next W' ->
+  w_active W' = w_active W -> w_pending W' = w_pending W -> w_running W' = w_running W ->
+  (forall g, In g (w_delayed W') -> In g (w_delayed W)) -> Once W'.
+Proof.
+  intros [OL OU ON] E1 E2 E3 E4 E6 E7 HD. constructor.
+  - rewrite E1. intros r Hr. pose proof (OL r Hr). lia.
+  - intros f u O. apply (once_u_transfer W); rewrite ?E1, ?E4, ?E6, ?E7; try reflexivity; auto.
+    apply OU. apply (owns_same W W' f u E2). exact O.
+  - rewrite E2. exact ON.
+Qed.
+
+Lemma ctx_start_func_once cfg W f : all_off cfg -> Inv W -> Once W -> In f (w_funcs W) -> Once (ctx_start_func cfg W f).
+Proof.
+  intros AO HI HO Hf. pose proof HI as [I [S L]]. pose proof HO as [OL OU ON]. unfold ctx_start_func.
+  destruct (memn (f_gen f) (w_active W) && memn (f_gen f) (w_delayed W)) eqn:C; [|exact HO].
+  apply andb_true_iff in C. destruct C as [CA CD]. apply memn_In in CA, CD.
+  pose proof (Inv_undelay W (f_gen f) HI) as H0.
+  assert (O0 : Once (set_delayed W (deln (f_gen f) (w_delayed W)))).
+  { apply (Once_status W); wsimpl; try reflexivity; try exact HO. intros g Hg. apply In_deln in Hg. tauto. }
+  set (W0 := set_delayed W (deln (f_gen f) (w_delayed W))) in *.
+  assert (ND0 : ~ In (f_gen f) (w_delayed W0)) by apply not_in_deln_self.
+  assert (OW : forall u, In u (f_units f) -> owns W0 f u) by (intros u Hu; split; assumption).
+  assert (IDLE : forall u, In u (f_units f) -> ~ In (u_id u) (w_running W0)) by (intros u Hu; apply (delayed_units_idle W f HI Hf CD u Hu)).
+  destruct (f_new f) eqn:NF.
+  - unfold dm_begin. fold W0. destruct (f_svc f) as [n|] eqn:SVN.
+    2:{ apply (fold_dec_start2 f NF (f_units f) W0 (conj H0 O0)); try assumption. apply (ON f Hf). }
+    set (us := firstn (f_pos f) (f_units f)).
+    assert (HU : forall u, In u us -> In u (f_units f)) by (intros u Hu; apply (firstn_In _ _ _ Hu)).
+    assert (O1 : Once (fold_left dec_unit_start us W0)).
+    { apply (fold_dec_start2 f NF us W0 (conj H0 O0)); try assumption; auto. apply firstn_nodup. apply (ON f Hf). }
+    destruct (fold_dec_start f NF us W0 H0) as [H1 [[[T1 T2] [A1 [D1 V1]]] [P1 R1]]]; try assumption; auto.
+    set (W1 := fold_left dec_unit_start us W0) in *.
+    assert (Hf1 : In f (w_funcs W1)) by (rewrite T1; exact Hf).
+    assert (CA1 : In (f_gen f) (w_active W1)) by (rewrite A1; exact CA).
+    destruct (svc_refused W1 f).
+    + cbv zeta. apply (dm_stopped_once cfg W1 _ f AO H1 O1 Hf1 NF CA1); wsimpl; try reflexivity.
+      * intros g. apply In_deln.
+      * auto.
+    + cbv zeta. destruct (svc_register_fields W1 f) as [[F2 [_ [P2 [_ [R2 _]]]]] [SA [SD [LG _]]]]. pose proof (svc_register_next W1 f) as N2.
+      apply (Once_status W1); wsimpl; try assumption; [rewrite N2; reflexivity|rewrite SD; auto].
+  - unfold leg_func_start. apply (fold_leg_start2 f NF (f_units f) W0 (conj H0 O0)); try assumption.
+    intros u Hu. destruct (OU f u (conj Hf Hu)) as [[A|[_ [_ [A _]]]] _]; [exact A|]. exfalso. exact (A NF CD).
+Qed.
+
+Lemma dm_resume_once g W : Inv W -> Once W -> Once (dm_resume g W).
+Proof.
+  intros HI HO. unfold dm_resume. destruct (find_func W g) as [f|] eqn:FF; [|exact HO].
+  destruct (find_func_some W g f FF) as [Hf EG]. subst g.
+  destruct (memn (f_gen f) (w_starting W) && f_new f) eqn:C; [|exact HO].
+  apply andb_true_iff in C. destruct C as [_ NF]. cbv zeta.
+  assert (H0 : Inv (set_starting W (deln (f_gen f) (w_starting W)))).
+  { pose proof HI as [I [S L]]. apply (Inv_res W _ HI); wsimpl; [repeat split; reflexivity|auto|apply (so_act W S)|apply (ok_svc W L)]. }
+  assert (O0 : Once (set_starting W (deln (f_gen f) (w_starting W)))) by (apply (same_once W); try reflexivity; exact HO).
+  destruct (memn (f_gen f) (w_active W) && negb (memn (f_gen f) (w_delayed W))) eqn:C2; [|exact O0].
+  apply andb_true_iff in C2. destruct C2 as [CA CD]. apply memn_In in CA. apply negb_true_iff, memn_false in CD.
+  apply (fold_start_idle2 f NF (f_units f) _ (conj H0 O0)); try assumption. intros u Hu. split; assumption.
+Qed.
+
+Lemma prologue_once id W : Inv W -> Once W -> Once (prologue id W).
+Proof.
+  intros HI HO. pose proof HI as [I [S L]]. pose proof HO as [OL OU ON]. unfold prologue.
+  destruct (find_unit W id) as [un|] eqn:FU; [|exact HO].
+  destruct (find_unit_some W id un FU) as [[f0 O0] EID].
+  destruct (memn id (w_pending W)) eqn:MP.
+  2:{ rewrite (so_zomb W S). cbn [memn existsb]. exact HO. }
+  apply memn_In in MP. destruct (so_pend W S id MP) as [f [u [O [E [NF [A ND]]]]]].
+  assert (un = u). { destruct (io_uniq W I f0 un f u O0 O) as [_ X]; [congruence|exact X]. } subst un. subst id.
+  constructor; wsimpl.
+  - intros r Hr. apply in_app_or in Hr. destruct Hr as [Hr|Hr]; [apply OL; exact Hr|].
+    rewrite leg_prologue_log in Hr. rewrite (startup_run_unit u r Hr). apply (io_unit W I f u O).
+  - intros f' u' O'. pose proof (OU f' u' O') as Y.
+    destruct (N.eq_dec (u_id u') (u_id u)) as [EU|NU].
+    + destruct (io_uniq W I f' u' f u O' O EU) as [-> ->]. unfold once_u in *. wsimpl. rewrite leg_prologue_log.
+      rewrite !count_app, count_su_startup, count_sd_startup, N.eqb_refl. cbn [andb]. rewrite !Nat.add_0_r.
+      destruct Y as [[A0|[_ [A3 _]]] [B [Cc [D E']]]]; [|contradiction]. rewrite A0. cbn [Nat.add]. repeat split; try assumption.
+      * destruct (u_startup u); [right|left; reflexivity]. split; [reflexivity|split; [apply not_in_deln_self|split]].
+        -- intros _. exact ND.
+        -- intros K. congruence.
+      * intros _ Y. rewrite Y. reflexivity.
+    + apply (once_u_transfer W); wsimpl; try exact Y.
+      * rewrite leg_prologue_log, count_app, count_su_startup. apply N.eqb_neq in NU. rewrite N.eqb_sym, NU. cbn. lia.
+      * rewrite leg_prologue_log, count_app, count_sd_startup. lia.
+      * auto.
+      * intros K. apply In_deln in K. tauto.
+      * split; [intros K; apply In_addn in K; destruct K as [K|K]; [exact K|contradiction]|intros K; apply In_addn; left; exact K].
+      * reflexivity.
+  - exact ON.
+Qed.
+
+(* ---- definition ------------------------------------------------------------------------------------- *)
+Lemma number_units_nodup gen : forall ps id, NoDup (map u_id (number_units gen id ps)).
+Proof.
+  induction ps as [|[[st ev] tm] r IH]; intros id; cbn [number_units map]; constructor; [|apply IH].
+  intros K. apply in_map_iff in K. destruct K as [u [E Hu]]. destruct (number_units_in _ _ _ _ Hu) as [_ [B _]].
+  cbn [mk_unit u_id] in E. lia.
+Qed.
+
+Lemma define_once cfg c newsys s W : all_off cfg -> Inv W -> Once W -> Once (define cfg c newsys s W).
+Proof.
+  intros AO HI HO. pose proof HI as [I [S L]]. pose proof HO as [OL OU ON].
+  unfold define.
+  set (gen := w_next W).
+  set (units := number_units gen (gen + 1) (if newsys then new_protos s else legacy_protos s)).
+  set (f := {| f_gen := gen; f_ctx := c; f_new := newsys; f_units := units; f_svc := s_svc s; f_pos := s_pos s |}).
+  set (Wf := {| w_led := w_led W; w_funcs := w_funcs W ++ [f]; w_active := w_active W; w_delayed := w_delayed W;
+                w_pending := w_pending W; w_zombie := w_zombie W; w_running := w_running W; w_starting := w_starting W;
+                w_hdl := w_hdl W; w_auto := w_auto W; w_next := gen + 1 + N.of_nat (length units); w_log := w_log W |}).
+  cbv zeta.
+  destruct (negb newsys && svc_refused Wf f) eqn:RF.
+  { apply (same_once W); wsimpl; try reflexivity; [exact HO|cbn [set_next w_next]; lia]. }
+  (* the invariant of the world in which the function is registered and delayed *)
+  set (Ws := if newsys then Wf else svc_register Wf f).
+  set (W1 := set_delayed (set_active Ws (w_active Ws ++ [gen])) (w_delayed Ws ++ [gen])).
+  assert (XS : w_log Ws = w_log W /\ w_funcs Ws = w_funcs W ++ [f] /\ w_next Ws = gen + 1 + N.of_nat (length units) /\
+               w_active Ws = w_active W /\ w_delayed Ws = w_delayed W /\ w_pending Ws = w_pending W /\ w_running Ws = w_running W).
+  { unfold Ws. destruct newsys; [repeat split; reflexivity|].
+    destruct (svc_register_fields Wf f) as [[F2 [_ [P2 [_ [R2 _]]]]] [SA [SD [LG _]]]]. pose proof (svc_register_next Wf f).
+    repeat split; assumption. }
+  destruct XS as [X1 [X2 [X3 [X4 [X5 [X6 X7]]]]]].
+  assert (H1 : Inv W1) by (destruct (define_mid_inv c newsys s W HI) as [H1 _]; exact H1).
+  assert (O1 : Once W1).
+  { constructor; unfold W1; wsimpl; rewrite ?X1, ?X2, ?X3.
+    - intros r Hr. pose proof (OL r Hr). fold gen in H. lia.
+    - intros f' u' [Hf' Hu']. wsimpl. rewrite ?X2 in Hf'. apply in_app_or in Hf'. destruct Hf' as [Hf'|[<-|[]]].
+      + pose proof (OU f' u' (conj Hf' Hu')) as Y. destruct (io_gen W I f' Hf') as [_ LT]. fold gen in LT.
+        apply (once_u_transfer W); wsimpl; rewrite ?X1, ?X4, ?X5, ?X6, ?X7; try exact Y; try reflexivity; auto.
+        * intros K. apply in_app_or in K. destruct K as [K|[K|[]]]; [exact K|lia].
+        * split; [intros K; apply in_app_or in K; destruct K as [K|[K|[]]]; [exact K|lia]|intros K; apply in_or_app; left; exact K].
+      + cbn [f f_units] in Hu'. destruct (number_units_in _ _ _ _ Hu') as [_ [B _]].
+        assert (Z : forall k, count_run k (u_id u') (w_log W) = 0%nat).
+        { intros k. apply count_zero. intros r Hr. unfold is_run. pose proof (OL r Hr). fold gen in H.
+          destruct (N.eqb_spec (r_unit r) (u_id u')) as [E|NE]; [lia|reflexivity]. }
+        unfold once_u. wsimpl. rewrite X1, X4, X5, X6, X7. cbn [f f_gen f_new]. rewrite !Z. repeat split; try lia.
+        * intros K. exfalso. destruct (so_run W S _ K) as [f2 [u2 [O2 [E2 _]]]]. destruct (io_unit W I f2 u2 O2) as [_ [_ LT]].
+          fold gen in LT. lia.
+        * intros _ K. exfalso. apply K. apply in_or_app. right; left; reflexivity.
+    - intros f' Hf'. rewrite ?X2 in Hf'. apply in_app_or in Hf'. destruct Hf' as [Hf'|[<-|[]]]; [apply ON; exact Hf'|].
+      cbn [f f_units]. apply number_units_nodup. }
+  fold Ws. fold W1.
+  destruct (memn c (w_auto W)); [|exact O1].
+  apply ctx_start_func_once; [exact AO|exact H1|exact O1|]. unfold W1. wsimpl. rewrite X2. apply in_or_app. right; left; reflexivity.
+Qed.
+
+(* ---- occurrences ------------------------------------------------------------------------------------- *)
+Lemma occ_once cfg W o : all_off cfg -> Inv W -> Once W -> is_occ o = true -> Once (step cfg W o).
+Proof.
+  intros AO HI HO OC. pose proof HI as [I [S L]]. pose proof HO as [OL OU ON].
+  assert (RUN : forall id, In id (w_running W) -> id < w_next W).
+  { intros id H. destruct (so_run W S id H) as [f [u [O [E _]]]]. rewrite <- E. apply (io_unit W I f u O). }
+  assert (GEN : forall rs, (forall r, In r rs -> r_unit r < w_next W /\
+                 (r_kind r = RState \/ r_kind r = REvent \/ r_kind r = RTime \/ r_kind r = RService)) -> Once (add_log W rs)).
+  { intros rs H. unfold add_log. constructor; wsimpl.
+    - intros r Hr. apply in_app_or in Hr. destruct Hr as [Hr|Hr]; [apply OL; exact Hr|apply (H r Hr)].
+    - intros f u O. pose proof (OU f u O) as Y.
+      assert (Z : forall k, (k = RStartup \/ k = RShutdown) -> count_run k (u_id u) rs = 0%nat).
+      { intros k Hk. apply count_zero. intros r Hr. unfold is_run. destruct (H r Hr) as [_ K].
+        destruct Hk as [-> | ->], K as [-> |[-> |[-> | ->]]]; cbn; apply andb_false_r. }
+      apply (once_u_transfer W); wsimpl; try exact Y; try reflexivity; auto.
+      + rewrite count_app, (Z RStartup (or_introl eq_refl)). lia.
+      + rewrite count_app, (Z RShutdown (or_intror eq_refl)). lia.
+    - exact ON. }
+  destruct o; cbn [is_occ] in OC; try discriminate; cbn [step]; apply GEN.
+  - intros r Hr. unfold occ_state in Hr. apply in_map_iff in Hr. destruct Hr as [[e' q] [<- Hp]]. apply filter_In in Hp.
+    destruct Hp as [Hp _]. cbn [r_unit r_kind snd]. split; [|left; reflexivity]. apply RUN. exact (proj1 (ok_state W L e' q Hp)).
+  - intros r Hr. unfold occ_event in Hr. apply in_app_or in Hr. destruct Hr as [Hr|Hr].
+    + destruct (memp (ev, 0) (l_bus (w_led W))); [|destruct Hr]. apply in_map_iff in Hr. destruct Hr as [[e' q] [<- Hp]].
+      apply filter_In in Hp. destruct Hp as [Hp _]. cbn [r_unit r_kind snd]. split; [|right; left; reflexivity].
+      apply RUN. exact (proj1 (ok_event W L e' q Hp)).
+    + apply in_map_iff in Hr. destruct Hr as [[e' q] [<- Hp]]. apply filter_In in Hp. destruct Hp as [Hp C]. cbn [r_unit r_kind snd].
+      split; [|right; left; reflexivity]. apply andb_true_iff in C. destruct C as [_ C]. apply negb_true_iff, N.eqb_neq in C. cbn in C.
+      destruct (ok_bus W L e' q Hp) as [[Z _]|[R _]]; [contradiction|]. apply RUN. exact R.
+  - intros r Hr. unfold occ_tick in Hr. apply in_flat_map in Hr. destruct Hr as [t [Ht Hr]].
+    destruct (find_unit W t) as [u|] eqn:FU; [|destruct Hr].
+    destruct (u_periodic u && negb (memn t (w_pending W)) && negb (memn t (w_zombie W))); [|destruct Hr].
+    destruct Hr as [<-|[]]. cbn [r_unit r_kind]. split; [|right; right; left; reflexivity].
+    destruct (find_unit_some W t u FU) as [[f O] E]. rewrite <- E. apply (io_unit W I f u O).
+  - intros r Hr. unfold occ_call, handler in Hr. destruct AO as [_ [_ [_ D21]]]. rewrite D21 in Hr.
+    destruct (rev (filter (has_name W n) (l_svc (w_led W)))) as [|g r0] eqn:RV; [destruct Hr|]. destruct Hr as [<-|[]].
+    cbn [r_unit r_kind]. split; [|right; right; right; reflexivity].
+    assert (Hg : In g (l_svc (w_led W))).
+    { assert (X : In g (rev (filter (has_name W n) (l_svc (w_led W))))) by (rewrite RV; left; reflexivity).
+      apply in_rev in X. apply filter_In in X. tauto. }
+    destruct (ok_svc W L g Hg) as [_ [f [Hf [E _]]]]. rewrite <- E. apply (io_gen W I f Hf).
+Qed.
+
+(* ---- composition ------------------------------------------------------------------------------------- *)
+Lemma ctx_stop_func_inv2 cfg W f : all_off cfg -> Inv2 W -> In f (w_funcs W) ->
+  Inv2 (ctx_stop_func cfg W f) /\ w_funcs (ctx_stop_func cfg W f) = w_funcs W.
+Proof.
+  intros AO [HI HO] Hf. destruct (ctx_stop_func_inv cfg W f AO HI Hf) as [H1 [[[T _] _] _]].
+  split; [split; [exact H1|]|exact T]. unfold ctx_stop_func. destruct (f_new f) eqn:NF.
+  - destruct (memn (f_gen f) (w_active W)) eqn:MA; [|exact HO]. apply memn_In in MA.
+    destruct (memn (f_gen f) (w_delayed W)); [apply dm_discard_once|apply dm_stop_once]; assumption.
+  - apply leg_func_stop_once; assumption.
+Qed.
+
+Lemma fold_inv2 {A} (g : world -> A -> world) (F : list func) (P : A -> Prop) :
+  (forall W a, P a -> Inv2 W -> w_funcs W = F -> Inv2 (g W a) /\ w_funcs (g W a) = F) ->
+  forall l W, (forall a, In a l -> P a) -> Inv2 W -> w_funcs W = F -> Inv2 (fold_left g l W) /\ w_funcs (fold_left g l W) = F.
+Proof.
+  intros H l. induction l as [|a r IH]; intros W HP HI HF; cbn [fold_left]; [split; assumption|].
+  destruct (H W a (HP a (or_introl eq_refl)) HI HF) as [H1 F1]. apply IH; [intros x Hx; apply HP; right; exact Hx|exact H1|exact F1].
+Qed.
+
+Lemma Inv2_set_auto W x : Inv2 W -> Inv2 (set_auto W x).
+Proof. intros [HI HO]. split; [apply Inv_set_auto; exact HI|apply (same_once W); try reflexivity; exact HO]. Qed.
+
+Lemma ctx_stop_inv2 cfg c W : all_off cfg -> Inv2 W -> Inv2 (ctx_stop cfg c W) /\ w_funcs (ctx_stop cfg c W) = w_funcs W.
+Proof.
+  intros AO HI. unfold ctx_stop.
+  destruct (fold_inv2 (fun W f => if N.eqb (f_ctx f) c then ctx_stop_func cfg W f else W) (w_funcs W) (fun f => In f (w_funcs W)))
+    with (l := w_funcs W) (W := W) as [H1 F1]; try assumption || reflexivity || auto.
+  - intros V a Pa HV FV. destruct (N.eqb (f_ctx a) c); [|split; assumption].
+    destruct (ctx_stop_func_inv2 cfg V a AO HV) as [X Y]; [rewrite FV; exact Pa|]. split; [exact X|congruence].
+  - split; [apply Inv2_set_auto; exact H1|exact F1].
+Qed.
+
+Lemma ctx_start_inv2 cfg c ord W : all_off cfg -> Inv2 W -> Inv2 (ctx_start cfg c ord W).
+Proof.
+  intros AO HI. unfold ctx_start.
+  destruct (fold_inv2 (fun W f => if N.eqb (f_ctx f) c then ctx_start_func cfg W f else W) (w_funcs W) (fun f => In f (w_funcs W)))
+    with (l := order_funcs ord (w_funcs W)) (W := W) as [H1 F1]; try assumption || reflexivity || (apply order_funcs_In).
+  - intros V a Pa [HV OV] FV. destruct (N.eqb (f_ctx a) c); [|split; [split|]; assumption].
+    assert (Ha : In a (w_funcs V)) by (rewrite FV; exact Pa).
+    destruct (ctx_start_func_inv cfg V a AO HV Ha) as [X [[T _] _]]. split; [split; [exact X|apply ctx_start_func_once; assumption]|congruence].
+  - apply Inv2_set_auto. exact H1.
+Qed.
+
+Lemma dropped_inv2 cfg g W : all_off cfg -> Inv2 W -> Inv2 (dropped cfg g W).
+Proof.
+  intros AO [HI HO]. split; [apply dropped_inv; assumption|]. unfold dropped.
+  destruct (find_func W g) as [f|] eqn:FF; [|exact HO]. destruct (find_func_some W g f FF) as [Hf EG]. subst g.
+  pose proof AO as [_ [D90 _]]. rewrite D90. destruct (f_new f) eqn:NF.
+  - destruct (memn (f_gen f) (w_active W)) eqn:MA; [|exact HO]. apply memn_In in MA.
+    destruct (memn (f_gen f) (w_delayed W)); [apply dm_discard_once|apply dm_stop_once]; assumption.
+  - apply leg_func_stop_once; assumption.
+Qed.
+
+Lemma settle_inv2 W : Inv2 W -> Inv2 (settle W) /\ w_funcs (settle W) = w_funcs W.
+Proof.
+  intros HI. unfold settle.
+  destruct (fold_inv2 (fun W u => prologue u W) (w_funcs W) (fun _ => True)) with (l := w_pending W ++ w_zombie W) (W := W) as [[H1 O1] F1];
+    try assumption || reflexivity || auto.
+  - intros V a _ [HV OV] FV. destruct (prologue_inv a V HV) as [X [[T _] _]]. split; [split; [exact X|apply prologue_once; assumption]|congruence].
+  - split; [split; [apply do_reap_inv; exact H1|]|exact F1]. apply (same_once _ _ O1); reflexivity.
+Qed.
+
+Lemma resume_all_inv2 W : Inv2 W -> Inv2 (resume_all W) /\ w_funcs (resume_all W) = w_funcs W.
+Proof.
+  intros HI. unfold resume_all.
+  apply (fold_inv2 (fun W g => dm_resume g W) (w_funcs W) (fun _ => True)); try assumption || reflexivity || auto.
+  intros V a _ [HV OV] FV. destruct (dm_resume_inv a V HV) as [X [[T _] _]]. split; [split; [exact X|apply dm_resume_once; assumption]|congruence].
+Qed.
+
+Lemma unload_inv2 cfg W : all_off cfg -> Inv2 W -> Inv2 (unload cfg W).
+Proof.
+  intros AO HI. unfold unload.
+  destruct (fold_inv2 (fun W c => ctx_stop cfg c W) (w_funcs W) (fun _ => True)) with (l := all_ctxs W) (W := W) as [H1 F1];
+    try assumption || reflexivity || auto.
+  - intros V a _ HV FV. destruct (ctx_stop_inv2 cfg a V AO HV) as [X Y]. split; [exact X|congruence].
+  - destruct (resume_all_inv2 _ H1) as [H2 _]. apply settle_inv2. exact H2.
+Qed.
+
+Lemma step_inv2 cfg W o : all_off cfg -> Inv2 W -> Inv2 (step cfg W o).
+Proof.
+  intros AO HI2. pose proof HI2 as [HI HO]. destruct (is_occ o) eqn:OC.
+  - split; [apply step_inv; assumption|apply occ_once; assumption].
+  - destruct o; cbn [is_occ] in OC; try discriminate; cbn [step].
+    + split; [apply define_inv; assumption|apply define_once; assumption].
+    + apply dropped_inv2; assumption.
+    + apply Inv2_set_auto. exact HI2.
+    + apply ctx_start_inv2; assumption.
+    + apply ctx_stop_inv2; assumption.
+    + apply unload_inv2; assumption.
+    + split; [apply prologue_inv; exact HI|apply prologue_once; assumption].
+    + split; [apply dm_resume_inv; exact HI|apply dm_resume_once; assumption].
+    + apply resume_all_inv2. exact HI2.
+    + split; [apply do_reap_inv; exact HI|apply (same_once _ _ HO); reflexivity].
+    + apply settle_inv2. exact HI2.
+Qed.
+
+Lemma run_ops_inv2 cfg ops : all_off cfg -> forall W, Inv2 W -> Inv2 (run_ops cfg ops W).
+Proof.
+  intros AO. unfold run_ops. induction ops as [|o r IH]; intros W HI; cbn [fold_left]; [exact HI|].
+  apply IH. apply step_inv2; assumption.
+Qed.
+
+Theorem startup_shutdown_once cfg : all_off cfg -> forall ops : list op,
+  let W := run_ops cfg ops world0 in
+  forall f u, In f (w_funcs W) -> In u (f_units f) ->
+    (count_run RStartup (u_id u) (w_log W) <= 1)%nat /\ (count_run RShutdown (u_id u) (w_log W) <= 1)%nat /\
+    (In (u_id u) (w_running W) -> u_startup u = true -> count_run RStartup (u_id u) (w_log W) = 1%nat) /\
+    (In (f_gen f) (w_active W) -> count_run RShutdown (u_id u) (w_log W) = 0%nat) /\
+    (f_new f = false -> ~ In (f_gen f) (w_active W) -> u_shutdown u = true -> count_run RShutdown (u_id u) (w_log W) = 1%nat).
+Proof.
+  intros AO ops W f u Hf Hu.
+  destruct (run_ops_inv2 cfg ops AO world0 (conj Inv0 Once0)) as [_ [_ OU _]].
+  destruct (OU f u (conj Hf Hu)) as [A [B [C [D E]]]]. repeat split; try assumption.
+  destruct A as [A|[A _]]; fold W in A; rewrite A; lia.
+Qed.
+
+(* the counts are not vacuous: a unit with both flags, started, stopped *)
+Example ex_once :
+  let W := run_ops cfg_off ex_ops0 world0 in
+  map (fun k => count_run k 2 (w_log W)) [RStartup; RShutdown; RState] = [1%nat; 1%nat; 1%nat] /\
+  map (fun k => count_run k 4 (w_log W)) [RStartup; RShutdown; RState] = [1%nat; 0%nat; 1%nat].
+Proof. vm_compute. split; reflexivity. Qed.
